@@ -435,6 +435,12 @@ func c05(r *Run) {
 
 	// ---- R6 once-guards ------------------------------------------------------------------------
 	c05OnceGuards(r, ro, s)
+	// "its descriptor is closed exactly once": the connection copies the accepted/dialed netFD (close-once counter included),
+	// so a second closer that goes through the original value is not stopped by the counter - only the finalizer and the
+	// dial paths that have no connection yet may close it (C15.R1 census)
+	if r.keep == nil {
+		r.borrow([]string{"C15.R1:connection-descriptor-closed-by"}, "C15.R1", "C05.R9", func() { c15(r) })
+	}
 
 	// ---- R7 delegation is honoured: unlock -> re-read -> help ----------------------------------
 	for _, holder := range []*ssa.Function{ro.task, ro.taskPanic} {
